@@ -188,9 +188,13 @@ class Base:
         uneliminatable_annotations = frozenset(a for a in annotations if not (a.eliminatable or a.relocatable))
         relocatable_annotations = frozenset(a for a in annotations if not a.eliminatable and a.relocatable)
 
+        # what must not be eliminated below this node does not depend on how the node got its own annotations
+        # (skip_child_annotations only says that the children's relocatable annotations are not to be added again)
+        for a in b_args:
+            uneliminatable_annotations |= a._uneliminatable_annotations
+
         if not skip_child_annotations:
             for a in b_args:
-                uneliminatable_annotations |= a._uneliminatable_annotations
                 relocatable_annotations |= a._relocatable_annotations
 
             annotations = tuple(frozenset((*annotations, *relocatable_annotations)))
@@ -246,7 +250,7 @@ class Base:
         ):
             uneliminatable_annotations = frozenset(
                 anno for anno in annotations if not anno.eliminatable and not anno.relocatable
-            )
+            ).union(*(a._uneliminatable_annotations for a in args if isinstance(a, Base)))
             relocatable_annotations = frozenset(
                 anno for anno in annotations if not anno.eliminatable and anno.relocatable
             )
